@@ -245,6 +245,11 @@ class Actor(object):
                 bar.advance(2)
                 bar.finish()
                 io.error_line("")
+            elif k == "mutate_args":
+                # an ordinary thing for user code to do with a list it was handed: extend it
+                for v in list(args.arguments().values()) + list(args.options().values()):
+                    if isinstance(v, list):
+                        v.append("leaked")
             elif k == "readline":
                 rec.setdefault("lines", []).append(io.read_line(default=st[1]))
             elif k == "deep":
